@@ -1,6 +1,6 @@
 (** * Generic tactics for the generated plan-rule obligations (C01) *)
-From RL Require Export Model.PlanSem Proofs.PlanSemP.
-From Coq Require Export Lia.
+From RL Require Export Model.PlanSem Proofs.PlanSemP Proofs.PlanHashP.
+From Coq Require Export Lia Btauto.
 Open Scope string_scope.
 Open Scope list_scope.
 
@@ -169,6 +169,105 @@ Ltac prule_buildable :=
   unfold pbuildable; intros env Hok Hc x; cbn [pr_lhs pr_rhs pr_conds] in *; use_pconds;
   pcbn; repeat pstep; pbuild_finish Hok.
 
+
+(** ** rules that mention the hash join: [join_sem] stays folded, both sides become [join_sem ty on lc rc L R] with two
+       conditions that agree on every pair of rows of the inputs ([join_sem_equiv]) *)
+Ltac pcbn_hj := cbn -[sort_by filter holdsf and3f flat_map matches rmatches left_rows limit_rows key_le inclb disjb keys_in app existsb Z.to_nat join_sem hash_on eq3f].
+Ltac pstep_hj :=
+  first
+    [ match goal with
+      | |- context [match ?e ?v with _ => _ end] =>
+          lazymatch type of e with string -> sem => idtac end;
+          destruct (e v) eqn:?; pcbn_hj; try solve [intros; congruence]
+      end
+    | match goal with
+      | |- context [match ?t with _ => _ end] =>
+          lazymatch t with
+          | context [match _ with _ => _ end] => fail
+          | _ => idtac
+          end;
+          first [ is_var t; destruct t | destruct t eqn:? ]; pcbn_hj; try solve [intros; congruence]
+      end ].
+(** the two conditions agree on the pair (l, r): every expression is moved to the input row it reads, the rest is a
+    boolean identity over the key comparisons *)
+Ltac pointwise :=
+  let l := fresh "l" in let r := fresh "r" in let Hl := fresh "Hl" in let Hr := fresh "Hr" in
+  intros l r Hl Hr;
+  repeat match goal with
+         | W : wf_rel ?c ?rows, H : In ?x ?rows |- _ =>
+             lazymatch goal with
+             | _ : map fst x = c |- _ => fail
+             | _ => let M := fresh "M" in pose proof (proj1 (Forall_forall _ _) W x H) as M; cbv beta in M
+             end
+         end;
+  repeat match goal with
+         | Hi : inclb ?s ?rc = true, Hd : disjb ?lc ?rc = true |- _ =>
+             lazymatch goal with
+             | _ : disjb s lc = true |- _ => fail
+             | _ => pose proof (disjb_right s lc rc Hi Hd)
+             end
+         end;
+  rewrite ?holdsf_and3f;
+  repeat match goal with
+         | |- context [holdsf (hash_on ?lc ?rc ?lk ?rk ?on) (l ++ r)] =>
+             rewrite (holdsf_hash_on lc rc lk rk on l r) by assumption
+         end;
+  rewrite ?holdsf_and3f, ?holdsf_eq3f, ?holdsf_bool; cbn [keys_matchb snd];
+  repeat match goal with
+         | Hro : reads_only ?s ?f, Hi : inclb ?s ?lc = true, M : map fst l = ?lc |- context [?f (l ++ r)] =>
+             rewrite (expr_left s f lc l r Hro Hi M)
+         | Hro : reads_only ?s ?f, Hd : disjb ?s ?lc = true, M : map fst l = ?lc |- context [?f (l ++ r)] =>
+             rewrite (expr_right s f lc l r Hro Hd M)
+         end;
+  btauto.
+Ltac pfinish_hj Hok :=
+  let H1 := fresh "H1" in let H2 := fresh "H2" in
+  rewrite ?join_sem_inner in *;
+  intros H1 H2;
+  repeat match goal with
+         | H : MExpr _ _ = MExpr _ _ |- _ => inversion H; subst; clear H
+         | H : MRel _ _ = MRel _ _ |- _ => inversion H; subst; clear H
+         | H : Some _ = Some _ |- _ => inversion H; subst; clear H
+         end;
+  wf_facts Hok; scope_facts;
+  repeat match goal with
+         | W : wf_sem (MList ?es), E : exprs_of ?es = Some ?fs |- _ =>
+             lazymatch goal with
+             | _ : exprs_ok fs |- _ => fail
+             | _ => pose proof (exprs_of_ok es fs W E)
+             end
+         end;
+  first [ eapply join_sem_equiv; [|eassumption|eassumption]; pointwise
+        | rewrite ?filter_inner_join; apply inner_rows_equiv; pointwise
+        | cbn [sem_equiv]; split; [reflexivity|];
+          solve [eapply inner_hash_join_swap; [eassumption|eassumption|eassumption|eassumption|eassumption]] ].
+Ltac prule_sound_hj :=
+  match goal with |- psound ?r => unfold r end;
+  let env := fresh "env" in let Hok := fresh "Hok" in let Hc := fresh "Hc" in
+  unfold psound; intros env Hok Hc x y; cbn [pr_lhs pr_rhs pr_conds] in *; use_pconds;
+  pcbn_hj; repeat pstep_hj; pfinish_hj Hok.
+Ltac kill_false_hj :=
+  exfalso;
+  match goal with
+  | Hf : ?b = false |- _ =>
+      assert (b = true) by (rewrite ?orb_true_r, ?andb_true_iff; repeat split; first [reflexivity | assumption | scope_solve | rewrite forallb_inclb_app_comm; assumption | rewrite Nat.eqb_sym; assumption]); congruence
+  end.
+Ltac pbuild_finish_hj Hok :=
+  let H1 := fresh "H1" in
+  rewrite ?join_sem_inner in *;
+  intros H1;
+  repeat match goal with
+         | H : MExpr _ _ = MExpr _ _ |- _ => inversion H; subst; clear H
+         | H : MRel _ _ = MRel _ _ |- _ => inversion H; subst; clear H
+         | H : Some _ = Some _ |- _ => inversion H; subst; clear H
+         end;
+  scope_facts;
+  first [ eexists; reflexivity | congruence | eapply join_sem_defined; eassumption | kill_false_hj ].
+Ltac prule_buildable_hj :=
+  match goal with |- pbuildable ?r => unfold r end;
+  let env := fresh "env" in let Hok := fresh "Hok" in let Hc := fresh "Hc" in
+  unfold pbuildable; intros env Hok Hc x; cbn [pr_lhs pr_rhs pr_conds] in *; use_pconds;
+  pcbn_hj; repeat pstep_hj; pbuild_finish_hj Hok.
 
 (** refutation from an explicit binding *)
 Definition penv_of (l : list (string * sem)) : string -> sem :=
